@@ -538,7 +538,7 @@ func main() {
 		rec(0, nil)
 	}
 	if f.Tier == "thorough" {
-		enum(8, 4, config{Ranges: []int64{10, 20, 40}, Overlap: true}, 10)
+		enum(7, 4, config{Ranges: []int64{10, 20, 40}, Overlap: true}, 10)
 		enum(6, 5, config{Ranges: []int64{10, 30, 60}, Overlap: true}, 10)
 		enum(6, 3, config{Ranges: []int64{10, 20, 40}, Overlap: false}, 10)
 	} else {
@@ -548,7 +548,7 @@ func main() {
 	}
 
 	// ---- seeded random
-	n := f.Count(800, 30000)
+	n := f.Count(800, 20000)
 	for i := 0; i < n; i++ {
 		r := gen.Fork(f.Seed, i)
 		var c config
